@@ -106,6 +106,24 @@ fn frames(rng: &mut Rng) {
             let a = rvec(rng).normalize();
             (a, perp(&a, rng), false)
         }
+        8 | 9 => {
+            // fixture flips: signed coordinate axes (the frame is a signed permutation, often a half turn)
+            let e = [Vector3::x(), Vector3::y(), Vector3::z()];
+            let i = rng.below(3);
+            let j = (i + 1 + rng.below(2)) % 3;
+            let sa = if rng.chance(0.5) { 1.0 } else { -1.0 };
+            let sb = if rng.chance(0.5) { 1.0 } else { -1.0 };
+            let a = e[i] * (sa * la);
+            (a, e[j] * (sb * lb) + a * *rng.pick(&[0.0, 0.0, 0.5, -2.0]), false)
+        }
+        10 | 11 => {
+            // a frame that is exactly a half turn about a generic axis u:  R = 2 u u^T - I  (symmetric)
+            let u = rvec(rng).normalize();
+            let r = u * u.transpose() * 2.0 - parry3d_f64::na::Matrix3::identity();
+            let e = [Vector3::x(), Vector3::y(), Vector3::z()];
+            let a = r * e[pi] * la;
+            (a, r * e[si] * lb + a * *rng.pick(&[0.0, 0.3, -1.5]), false)
+        }
         _ => (rvec(rng) * la, rvec(rng) * lb, false),
     };
     let origin = if rng.chance(0.7) { Some(p3(rng, 100.0)) } else { None };
@@ -147,7 +165,9 @@ fn frames(rng: &mut Rng) {
                 v.require((c[pi] - ah).norm() <= tol, "frame.primary_axis_is_normalised_first_argument", || {
                     format!("kind={kind} axis {:?} expected {:?} (tol {tol:e})", c[pi], ah)
                 });
-                v.require(c[si].dot(&bh) > 0.25 * sin_rel, "frame.secondary_axis_in_half_plane_of_second_argument", || {
+                // (rounding in the cross products is ~1e-16 / sin: below sin ~ 1e-7 the side of a nearly parallel
+                // second argument is not resolved)
+                v.require(sin_rel <= 1e-7 || c[si].dot(&bh) > 0.25 * sin_rel, "frame.secondary_axis_in_half_plane_of_second_argument", || {
                     format!("kind={kind} secondary·b = {} (sin {sin_rel:e})", c[si].dot(&bh))
                 });
                 v.require(c[ti].dot(&bh).abs() <= tol, "frame.third_axis_normal_to_both_arguments", || {
@@ -186,10 +206,29 @@ fn iso_checks(v: &mut Verdict, name: &str, iso: &Iso3, origin: &Point3, x: &Vect
     v.require(yy.y > 0.0 && yy.z.abs() <= tol, &format!("{name}.second_vector_in_upper_xy_half_plane"), || format!("{yy:?}"));
 }
 
+/// an orthonormal pair whose frame is a signed permutation of the axes or exactly a half turn about a
+/// generic axis (R = 2uu^T - I): the poses of a flipped fixture
+fn special_pair(rng: &mut Rng) -> (Vector3, Vector3) {
+    let e = [Vector3::x(), Vector3::y(), Vector3::z()];
+    if rng.chance(0.5) {
+        let i = rng.below(3);
+        let j = (i + 1 + rng.below(2)) % 3;
+        (e[i] * if rng.chance(0.5) { 1.0 } else { -1.0 }, e[j] * if rng.chance(0.5) { 1.0 } else { -1.0 })
+    } else {
+        let u = rvec(rng).normalize();
+        let r = u * u.transpose() * 2.0 - parry3d_f64::na::Matrix3::identity();
+        ((r * e[0]).normalize(), (r * e[1]).normalize())
+    }
+}
+
 fn inverse_frames(rng: &mut Rng) {
     // iso3_from_xyo
-    let x0 = UnitVec3::new_normalize(rvec(rng));
-    let mode = rng.below(10);
+    let special = if rng.chance(0.3) { Some(special_pair(rng)) } else { None };
+    let x0 = match special {
+        Some((sx, _)) => UnitVec3::new_normalize(sx),
+        None => UnitVec3::new_normalize(rvec(rng)),
+    };
+    let mode = if special.is_some() { 20 } else { rng.below(10) };
     let (y, exact_parallel) = match mode {
         0 => (x0, true),
         1 => (-x0, true),
@@ -197,6 +236,7 @@ fn inverse_frames(rng: &mut Rng) {
             let d = *rng.pick(&[1e-2, 1e-4, 1e-6]);
             (UnitVec3::new_normalize(x0.into_inner() * if rng.chance(0.5) { 1.0 } else { -1.0 } + perp(&x0, rng) * d), false)
         }
+        20 => (UnitVec3::new_normalize(special.unwrap().1 + x0.into_inner() * *rng.pick(&[0.0, 0.0, 0.4, -1.2])), false),
         _ => (UnitVec3::new_normalize(rvec(rng)), false),
     };
     let origin = p3(rng, 50.0);
@@ -230,8 +270,12 @@ fn inverse_frames(rng: &mut Rng) {
     }
 
     // iso3_from_basis on an orthonormal triple (either handedness) or an arbitrary one
-    let b0 = rvec(rng).normalize();
-    let b1 = perp(&b0, rng);
+    let (b0, b1) = if rng.chance(0.3) {
+        special_pair(rng)
+    } else {
+        let b0 = rvec(rng).normalize();
+        (b0, perp(&b0, rng))
+    };
     let flip = rng.chance(0.5);
     let b2 = b0.cross(&b1) * if flip { -1.0 } else { 1.0 };
     let scale = *rng.pick(&[1.0, 1.0, 3.0, 0.01]);
@@ -262,7 +306,13 @@ fn inverse_frames(rng: &mut Rng) {
     // iso2_from_basis
     let ang = rng.range(-3.2, 3.2);
     let len = *rng.pick(&[1.0, 1.0, 5.0, 1e-3, 0.0]);
-    let c0 = Vector2::new(ang.cos(), ang.sin()) * len;
+    // exact quarter and half turns as well
+    let c0 = match rng.below(8) {
+        0 => Vector2::new(-1.0, 0.0),
+        1 => Vector2::new(0.0, -1.0),
+        2 => Vector2::new(0.0, 1.0),
+        _ => Vector2::new(ang.cos(), ang.sin()),
+    } * len;
     let o2 = Point2::new(rng.range(-50.0, 50.0), rng.range(-50.0, 50.0));
     let r = guarded(|| iso2_from_basis(&[c0, Vector2::new(-c0.y, c0.x)], &o2));
     let mut i = Tok::new();
